@@ -107,6 +107,13 @@ def wl_bloom(ctx, rng, case):
                     ctx.count("set_operation_count_checks")
             where = f"after step {step} ({case.ops[-1][0]})"
             ctx.check(f.elements_added == calls, f"elements_added is not the number of add calls {where}", got=f.elements_added, want=calls)
+            if on_disk and f.elements_added >= 0:
+                # the same number must be what another object sees in the live file / mapping, without closing the writer
+                g1 = P.BloomFilter.frombytes(bytes(f), **bl.kw_hash(hf))
+                g2 = P.BloomFilter(filepath=path, **bl.kw_hash(hf))
+                ctx.check(g1.elements_added == calls and g2.elements_added == calls, f"another object loading the live on-disk filter sees another element count {where}",
+                          frombytes=g1.elements_added, filepath=g2.elements_added, want=calls)
+                ctx.count("live_ondisk_counter_reads")
             ctx.count("counter_checks")
             check_stats(ctx, f, where)
         case.nontrivial = calls > 0
